@@ -29,7 +29,7 @@ FAMILIES = ["gauss_cov_scalar", "gauss_cov_vec", "gauss_cov_full", "gauss_prec_f
             "laplace_scalar_geom", "uniform_scalar_geom", "gauss_sqrtcov_scalar", "gauss_sqrtcov_vec", "gauss_sqrtcov_diagmat",
             "gauss_sqrtprec_vec", "gauss_sqrtprec_diagmat", "gauss_sqrtprec_scalar", "gauss_cov_diagmat", "gauss_prec_scalar",
             "gauss_sparse_cov_tridiag", "gauss_sparse_prec_tridiag", "gauss_sparse_sqrtprec_diag", "gmrf_order0", "gmrf_order2", "gmrf2d_order0", "gmrf2d_order2", "gauss_sqrtprec_full_forder", "gauss_sqrtprec_sparse_bidiag", "gauss_mean_cuqiarray", "gmrf_mean_cuqiarray",
-            "user_defined_gauss"]
+            "user_defined_gauss", "gauss_cov_full_hugescale", "gauss_cov_full_badscale", "user_defined_row"]
 
 
 def build_dist(rec):
@@ -45,6 +45,21 @@ def build_dist(rec):
         return D.Gaussian(mean, np.linspace(0.5, 2.0, n))
     if fam == "gauss_cov_full":
         return D.Gaussian(mean, C)
+    if fam == "gauss_cov_full_hugescale":
+        # a well-conditioned full covariance in units that make every entry huge (or tiny): nothing about a draw may
+        # depend on the absolute size of the entries
+        return D.Gaussian(mean, C * 10.0 ** [16, -16, 18, 12][z % 4])
+    if fam == "gauss_cov_full_badscale":
+        # two correlated variables measured in very different units (standard deviations 1e-5 and 1e3)
+        S_ = np.diag([1e-5, 1e3])
+        rho = [0.8, -0.6, 0.3, -0.9][z % 4]
+        return D.Gaussian(np.zeros(2), S_ @ np.array([[1.0, rho], [rho, 1.0]]) @ S_)
+    if fam == "user_defined_row":
+        # a user sampler that returns ONE draw as a row of shape (1, dim) (what multivariate_normal(mean, cov, 1) gives)
+        st_ = np.random.RandomState(z)
+        d_ = max(n, 2)
+        return D.UserDefinedDistribution(dim=d_, logpdf_func=lambda x: float(-0.5 * np.sum(np.asarray(x) ** 2)),
+                                         sample_func=lambda: st_.randn(1, d_))
     if fam == "gauss_prec_full":
         return D.Gaussian(mean, prec=C)
     if fam == "gauss_sqrtcov":
@@ -331,6 +346,9 @@ class StreamsRun:
                 except Exception as e:
                     ctx.violate(PROP, "a_op_raised", self.sig(op=k, fam=self._fam(op)), err=type(e).__name__ + ": " + str(e)[:200])
                     continue
+                if k == "a_sample" and self._fam(op) == "user_defined_row":
+                    self._shape_oracle(op, dists[op["d"]], out_obj=None, arr=out)      # (private stream: only shape and wrapping)
+                    continue
                 if k == "a_sample":
                     self._gaussian_mechanism(op, dists[op["d"]], g, n_before, out)
                     self._linear_gaussian_identification(op, dists[op["d"]], g, n_before, out)
@@ -366,8 +384,8 @@ class StreamsRun:
                 if k == "b_sample" and (self.touched.get(op["d"]) or self.conditional.get(op["d"])):
                     continue
                 out = self.b_op(op, dists, bs)
-                if self._fam(op) == "user_defined_buffer":
-                    continue                  # (draws from its private stream; it only serves to refresh the buffer)
+                if self._fam(op) in ("user_defined_buffer", "user_defined_row"):
+                    continue                  # (draws from its private stream)
                 outs.append((i, "B", out, None))
                 ctx.log("b_out", core.digest(out))
                 if rs_digest(g) != gd:
@@ -694,7 +712,7 @@ def rs_digest_from(state):
 
 def gen_case(r, tier):
     nd = r.randint(1, 3)
-    dists = [{"fam": r.choice(FAMILIES[:-1]), "n": r.randint(1, 5), "zseed": r.randrange(1, 10 ** 6)} for _ in range(nd)]
+    dists = [{"fam": r.choice([f_ for f_ in FAMILIES if f_ != "user_defined_gauss"]), "n": r.randint(1, 5), "zseed": r.randrange(1, 10 ** 6)} for _ in range(nd)]
     for d in dists:
         if d["fam"] in ("gauss_cov_scalar", "gauss_cov_vec", "gauss_sparse_cov", "gauss_sparse_prec", "normal", "gauss_cov_full",
                         "gauss_prec_full", "gauss_sqrtcov", "gauss_sqrtprec", "gauss_sqrtprec_lower", "gauss_sqrtprec_full",
